@@ -107,9 +107,8 @@ def build_harness(bins=None):
         if os.path.exists(lock_src) and not os.path.exists(lock_dst):
             with open(lock_src) as a, open(lock_dst, "w") as b:
                 b.write(a.read())
-        gen = os.path.join(VERIF, "harness", "src", "gen_r5.rs")
-        if not os.path.exists(gen):
-            run([sys.executable, os.path.join(VERIF, "tools", "gen_harness.py"), gen])
+        run([sys.executable, os.path.join(VERIF, "tools", "gen_harness.py"), os.path.join(VERIF, "harness", "src")])
+        run([sys.executable, os.path.join(VERIF, "tools", "gen_ctor.py"), os.path.join(VERIF, "harness", "src", "bin")])
         cmd = ["cargo", "build", "--offline", "--quiet"]
         for b in bins or []:
             cmd += ["--bin", b]
